@@ -447,9 +447,21 @@ func mayReturnNil(f *ssa.Function) bool {
 	instrs(f, func(in ssa.Instruction) {
 		if ret, ok := in.(*ssa.Return); ok {
 			for _, v := range ret.Results {
+				if _, isPtr := v.Type().Underlying().(*types.Pointer); !isPtr {
+					continue
+				}
 				if isNilConst(v) {
-					if _, isPtr := v.Type().Underlying().(*types.Pointer); isPtr {
-						r = true
+					r = true
+				}
+				// a function with a defer returns through a result cell: `return nil` is a store of nil
+				// into that cell followed by a load at the common exit
+				if u, ok := v.(*ssa.UnOp); ok && u.Op == token.MUL {
+					if al, ok := u.X.(*ssa.Alloc); ok && al.Referrers() != nil {
+						for _, ref := range *al.Referrers() {
+							if st, ok := ref.(*ssa.Store); ok && st.Addr == ssa.Value(al) && isNilConst(st.Val) {
+								r = true
+							}
+						}
 					}
 				}
 			}
@@ -480,6 +492,13 @@ func (pa *PanicAudit) nilable(v ssa.Value) (bool, string) {
 	switch x := v.(type) {
 	case *ssa.UnOp:
 		if x.Op == token.MUL {
+			// a local assigned once and then captured by a closure lives in a cell: its content is the
+			// value that was stored (st := f(); ... func() { use(st) })
+			if al, ok := x.X.(*ssa.Alloc); ok {
+				if sv := singleStore(al); sv != nil && sv != v {
+					return pa.nilable(sv)
+				}
+			}
 			if fa, ok := x.X.(*ssa.FieldAddr); ok && isMsgPtr(x.Type()) {
 				// singular message field of a proto message; payload of a oneof wrapper is taken as set
 				if n, ok := deref(fa.X.Type()).(*types.Named); ok && strings.Contains(n.Obj().Name(), "_") {
